@@ -156,6 +156,14 @@ def main():
             undecided.append((u, r))
             per_unit.append({"unit": u.name, "shape": u.shape, "status": "undecided", "reason": r.get("reason", "")[:300]})
             continue
+        # a call of a function that has neither a body nor a model in the unit (CBMC's "no body for callee" obligation): every value the
+        # callee returns is arbitrary, so whatever fails after it proves nothing -- undecided, never a violation (false-alarm discipline)
+        nobody = [o for o in r["obligations"] if o["status"] == "FAILURE" and ".no-body." in o["name"]]
+        if nobody:
+            r = dict(r, status="undecided", reason="call of a function without body or model: " + ", ".join(sorted(set(o["name"].split(".no-body.")[1] for o in nobody))))
+            undecided.append((u, r))
+            per_unit.append({"unit": u.name, "shape": u.shape, "status": "undecided", "reason": r["reason"][:300]})
+            continue
         rel = [o for o in r["obligations"] if relevant(prop, u, o)]
         # in S units the element loop is deliberately cut at K: its unwinding assertion is the bound, not a claim
         if u.shape in ("S", "B"):
